@@ -4,8 +4,13 @@ seeded/RESULTS.tsv (written by tools/seedpass.sh) and seeded/*/meta.json."""
 import json, os, csv, re
 ROOT = os.path.dirname(os.path.dirname(os.path.abspath(__file__)))
 rows = list(csv.reader(open(os.path.join(ROOT, "seeded", "RESULTS.tsv")), delimiter="\t"))[1:]
-by = {}
+# a seed may have been passed over more than once (tools/seedpass.sh <seed>... appends): the last row per (seed, check) counts
+last = {}
 for r in rows:
+    if len(r) >= 4:
+        last[(r[0], r[2])] = r
+by = {}
+for r in last.values():
     by.setdefault(r[0], []).append(r)
 lines = ["| seed | files changed | mechanism (first line of the author's note) | detected by (registered quick command on /repo with the change applied) |", "|---|---|---|---|"]
 missed_first, undetected = 0, []
